@@ -1,7 +1,7 @@
 (* runtime_settings.rs (should_emit_entry, escape_path) and escaped_path.rs / std::path on
    relative and absolute unix paths.  A PathBuf is modelled by its raw string. *)
 From Slinky Require Import Model.Types.
-Open Scope string_scope.
+Local Open Scope string_scope.
 
 (* ---------- should_emit_entry ---------- *)
 
